@@ -168,6 +168,9 @@ func (g *gen) genStatement(typ types.Type, this, that string) error {
 		} else if isNamed || isAlias {
 			external := g.TypesMap.IsExternal(objGetter)
 			fields := derive.Fields(g.TypesMap, strct, external)
+			if f := fields.Unwritable; f != nil {
+				return fmt.Errorf("unsupported field %s of %s: its type %s cannot be written outside of its package", f.DebugName(), g.TypeString(typ), f.Type)
+			}
 			if len(fields.Fields) > 0 {
 				thisv := prepend(this, "v")
 				thatv := prepend(that, "v")
